@@ -115,9 +115,10 @@ CLAIMS = {
             "Decides, over every call path, that no body that mutably projects the stored dataset_index is callable from the "
             "query-only entry points (context-sensitive cut for text already accepted by the SELECT-only parser), that the Update "
             "arm refuses before the database is handed to anything, and that the HTTP adapter only goes through the query entry. "
-            "Two neural-materialisation sink calls are confirmed known findings. Clean failure of the string entry points "
-            "(certificates) is decided by the C16 engine where registered.",
-            "call-graph reachability with verified guarded cuts, role-defined sinks"),
+            "Two neural-materialisation sink calls are confirmed known findings. Clean failure: the certificate analysis of C16 is "
+            "run from the three string entry points over the text-facing layer (parser, error rendering, request execution, plan "
+            "lowering, filter types: 99 sites); it found and two `fix:` commits removed two panics reachable by plain request text.",
+            "call-graph reachability with verified guarded cuts, role-defined sinks; MIR symbolic certificate analysis (T-CERT)"),
     "C14": ("DESIGN.md §4 C14",
             "Decides that in every text serializer a value written between double quotes is the result of the escaper (format "
             "template analysis on MIR), that the writer's escape table and the decoder's table are inverse on every escaped "
@@ -125,6 +126,15 @@ CLAIMS = {
             "every term cleaner used by a loader decodes literal bodies (defect fixed for N-Triples/Turtle). Round-trip equality "
             "for all Unicode strings is not decided.",
             "MIR format-template / def-use analysis, char-switch table extraction (inverse tables)"),
+    "C16": ("DESIGN.md §4 C16, §9.2",
+            "Decides totality structurally: every str slicing / offset operation, sequence index, unwrap/expect and arithmetic on "
+            "input-parsed numbers reachable from the parser entry points is discharged by a char-boundary / order / non-emptiness "
+            "prover over symbolic MIR expressions (guards, co-inductive loop variables, closures, parameter preconditions) or by "
+            "an audited lemma bound to the exact expression, its variables' definitions and the fingerprint of the functions it "
+            "relies on; every Ok of the top-level parsers returns a blank-skipped remainder tested empty; the unified grammar uses "
+            "only the case-insensitive keyword helper and the comment-aware blank skipper. Two panics were fixed. Structural "
+            "fidelity of the syntax tree (round-trip) is not decided.",
+            "MIR symbolic certificate analysis (T-CERT) with audited lemma table, controlling conditions, token-helper discipline"),
 }
 
 NA = {
